@@ -24,11 +24,22 @@ pub struct DDbg {
     pub bps: HashSet<u16>,
     pub steps: u64,
     pub hits: u64,
+    /// watchdog: a call that executes more than `budget` steps is stopped (0 = off)
+    pub budget: u64,
+    pub call_steps: u64,
+    pub exhausted: bool,
 }
 
 impl DebugInterface for DDbg {
     fn check_pc_breakpoint(&mut self, addr: u16) -> bool {
         self.steps += 1;
+        if self.budget > 0 {
+            self.call_steps += 1;
+            if self.call_steps > self.budget {
+                self.exhausted = true;
+                return true;
+            }
+        }
         if self.break_all || self.bps.contains(&addr) {
             self.hits += 1;
             return true;
